@@ -178,6 +178,10 @@ func genCfg(r *rand.Rand, g GenOpts) *Cfg {
 		c.SB = 0
 	case 5: // no forced blinds at all (ante-only or free game)
 		c.SB, c.BB, c.Dl = 0, 0, 0
+	case 6: // small blind only
+		if c.SB > 0 {
+			c.BB, c.Dl = 0, 0
+		}
 	}
 	c.DeadSB = r.Intn(6) == 0 && c.N >= 3
 	c.Limit = "no"
@@ -234,6 +238,15 @@ func genCfg(r *rand.Rand, g GenOpts) *Cfg {
 			b = 1
 		}
 		c.Banks = append(c.Banks, b)
+	}
+	if c.Ante >= 2 && c.N >= 3 && r.Intn(12) == 0 {
+		// a table of stacks around the ante: several seats short of it by different amounts, side pots from
+		// the antes alone
+		for i := range c.Banks {
+			if r.Intn(5) != 0 {
+				c.Banks[i] = 1 + int64(r.Intn(int(c.Ante)+1))
+			}
+		}
 	}
 	if r.Intn(14) == 0 {
 		// very large amounts: around 2^31, 2^53 and 2^55 (32-bit and float64 conversions would show here)
